@@ -192,6 +192,7 @@ class LogWatch(object):
           return orig(logger, msg, *args, **kwargs)
         n0 = len(lw.msgs)
         t0 = lw.tick()
+        kwargs['stacklevel'] = kwargs.get('stacklevel', 1) + 1   # this wrapper must not become "the caller"
         ret = orig(logger, msg, *args, **kwargs)
         # (reached only when the call returned normally: a call cut short by the phase kill
         # carries no promise)
@@ -292,6 +293,13 @@ def evaluate(lw, probes):
       if got != want:
         viols.append({'clause': 'log_record_fields_wrong', 'details': {'test': run['name'], 'got': list(map(str, got)),
                                                                       'want': list(map(str, want))}})
+      # independent of what logging itself computed: the workload's messages come from known files
+      txt = m['text'] or ''
+      src = 'logshapes.py' if txt.startswith(('xlog ', 'status of ')) else (
+          'bodies.py' if (' inv' in txt and 'log p' in txt) or 'ctor log ' in txt or 'td log ' in txt else None)
+      if src is not None and e.source != src:
+        viols.append({'clause': 'log_record_source_file_wrong', 'details': {'test': run['name'], 'got': e.source, 'want': src,
+                                                                           'text': txt[:40]}})
       if kind == 'framework':
         probes['framework_message_in_window'] = 1
       if m['level'] <= logging.DEBUG:
